@@ -315,6 +315,57 @@ def _state_I_long(res, n, pattern):
     res.outcomes["long-list-%s" % ("ok" if ok else "VIOLATED")] += 1
 
 
+DEC_NEUTRAL = [  # decimal molalities of neutral salt solutions: b*z cancels on paper, in doubles only up to a few ulp
+    ([0.05, 0.15], [3, -1]), ([0.1, 0.2, 0.3], [1, 1, -1]), ([0.1, 0.15], [3, -2]), ([0.4, 0.1, 0.3, 0.2], [1, 3, -1, -2]),
+    ([1e-7, 3e-7], [3, -1]), ([0.3, 0.1], [-1, 3]), ([0.05, 0.15, 0.02, 0.06], [3, -1, 3, -1]),
+]
+DEC_KEYS = {3: "Fe+3", -1: "ClO4-", 1: "Na+", 2: "Ca+2", -2: "SO4-2", -3: "PO4-3"}
+GROUP_KEYS = [("Fe(CN)6-4(aq)", -4), ("[Fe(CN)6]-4(aq)", -4), ("Fe(CN)6-4", -4), ("Al(OH)4-(aq)", -1), ("Co(NH3)6+3(aq)", 3), ("UO2(CO3)3-4(aq)", -4)]
+
+
+def _state_I_decimal(res):
+    """(a) neutral decimal compositions (3:1 salts, salts sharing an ion) at several magnitudes: value to 1e-15 relative and NO
+    neutrality warning; the same with one entry raised by 1e-6 relative: a warning; as lists, quantities and formula mappings.
+    (b) mappings whose keys carry a group in parentheses and a state suffix: charges are those the formulas say"""
+    from chempy.electrolytes import ionic_strength
+    from chempy.units import default_units as u
+
+    for bs, zs in DEC_NEUTRAL:
+        for pert in (False, True):
+            b2 = list(bs)
+            if pert:
+                b2[0] = b2[0] * (1 + 1e-6)
+            ref = sum(b * z * z for b, z in zip(b2, zs)) / 2
+            forms = [("list", lambda: ionic_strength(list(b2), list(zs))), ("quantities", lambda: ionic_strength([b * u.molal for b in b2], list(zs), units=u))]
+            if len(set(zs)) == len(zs):
+                forms.append(("mapping", lambda: ionic_strength({DEC_KEYS[z]: b for b, z in zip(b2, zs)})))
+            for form, f in forms:
+                res.states += 1
+                res.transitions += 1
+                res.nontrivial += 1
+                got, warned = _call_is(res, f)
+                val = _mag_molal(got) if form == "quantities" and not isinstance(got, str) else got
+                ok = not isinstance(val, str) and abs(float(val) - ref) <= 1e-14 * ref and warned == pert
+                res.outcomes["I-decimal:%s:%s" % ("unbalanced" if pert else "neutral", "ok" if ok else "WRONG")] += 1
+                if not ok:
+                    key = "C18|ionic_strength|decimal-%s|%s" % (form, "value" if isinstance(val, str) or abs(float(val) - ref) > 1e-14 * ref else ("warning-missing" if pert else "warning-spurious"))
+                    res.violation(key, "ionic_strength(%r, %r) [%s]: value %r (definition %r), neutrality warning %s; the composition is %s" % (
+                        b2, zs, form, val, ref, "issued" if warned else "not issued", "off by 1e-6 of one entry" if pert else "neutral"), dict(layer="ID", k=key), [repr(val), warned], [ref, pert])
+    for key_, z in GROUP_KEYS:
+        for b in (0.125, 0.5):
+            res.states += 1
+            res.transitions += 1
+            res.nontrivial += 1
+            comp = {("K+" if z < 0 else "Cl-"): abs(z) * b, key_: b}
+            ref = (abs(z) * b + b * z * z) / 2
+            got, warned = _call_is(res, lambda: ionic_strength(dict(comp)))
+            ok = not isinstance(got, str) and float(got) == ref and not warned
+            res.outcomes["I-group-keys:%s" % ("ok" if ok else "WRONG")] += 1
+            if not ok:
+                key = "C18|ionic_strength|mapping-group-and-state-key|%s" % ("raises" if isinstance(got, str) else "value" if float(got) != ref else "warning-spurious")
+                res.violation(key, "ionic_strength(%r) = %r (warning %s), charges from the formulas give %r without a warning" % (comp, got, warned, ref), dict(layer="ID", k=key), [repr(got), warned], [ref, False])
+
+
 def _distinct_perms(zs, ks):
     seen, out = set(), []
     for p in itertools.permutations(range(len(zs))):
@@ -791,6 +842,19 @@ def _state_P(res, stoich, zs, count=True):
             ref, sc = _ref_product("extended", IS, stoich, zs, T, eps, rho, a=a, C=0.1, Aval=Aval, Bval=Bval)
             ok &= _cmp_prod(res, "ExtendedDebyeHuckelActivityProduct", "call",
                             lambda: el.ExtendedDebyeHuckelActivityProduct(stoich, zs, a, T, eps, rho, 0.1)(list(cs)), ref, sc, dict(base, fn="EclassC"))
+            # two products that differ (here only by the trailing C) are different keys of a memo table
+            res.evaluations += 1
+            try:
+                pa, pb = el.ExtendedDebyeHuckelActivityProduct(stoich, zs, a, T, eps, rho), el.ExtendedDebyeHuckelActivityProduct(stoich, zs, a, T, eps, rho, 0.1)
+                memo = {pa: "without C"}
+                memo.setdefault(pb, "with C = 0.1")
+                gotm = [memo[pb], bool(pa == pb), bool(pa != pb), pb in [pa]]
+            except Exception as e:
+                gotm = "EXC %s" % type(e).__name__
+            if gotm != ["with C = 0.1", False, True, False]:
+                ok = False
+                key = "C18|ExtendedDebyeHuckelActivityProduct|distinct-products-taken-for-the-same"
+                res.violation(key, "products built with and without C = 0.1 (%r, %r): [memo entry found for the second, ==, !=, in] = %r" % (stoich, zs, gotm), dict(base, fn="EclassMemo", k=key), gotm, ["with C = 0.1", False, True, False])
             nst += 1
     if count:
         res.states += nst
@@ -811,6 +875,7 @@ def run_chunk(chunk, tier):
         for n in (8, 9, 10, 11, 13, 16, 17, 18, 19, 33, 40):
             for pattern in ("neutral-pairs", "all-cations", "ones"):
                 _state_I_long(res, n, pattern)
+        _state_I_decimal(res)
         res.sample(dict(layer="IL", lengths=[8, 9, 10, 11, 13, 16, 17, 18, 19, 33, 40]), limit=1)
     elif kind == "I":
         _, r, i0, j, J = chunk
@@ -864,6 +929,8 @@ def replay(case):
     layer = case["layer"]
     if layer == "IL":
         _state_I_long(res, case["n"], case["pattern"])
+    elif layer == "ID":
+        _state_I_decimal(res)
     elif layer == "I":
         _state_I(res, case["zs"], case["ks"], count=False)
     elif layer == "AB":
